@@ -245,6 +245,9 @@ func (s *streamService) Write(stream streamv1.StreamService_WriteServer) error {
 		cee, err := publisher.Close()
 		for _, ssm := range succeedSent {
 			code := modelv1.Status_STATUS_SUCCEED
+			if err != nil {
+				code = modelv1.Status_STATUS_INTERNAL_ERROR
+			}
 			if cee != nil {
 				for _, node := range ssm.nodes {
 					if ce, ok := cee[node]; ok {
